@@ -45,6 +45,10 @@ CHECKS = {
    technique="multi-run trace validation: transcripts (with checksums) of the same (schema, input) recorded in several fresh processes, after different seeded histories of other transforms and repeated, are checked by TLC against Trace_Runs.tla (Same); checksum sensitivity pairs against Distinct/Equal",
    text="Each corpus item is run in 3 (thorough 6) fresh processes, twice per process at seeded positions of a whole-corpus history, and alone in a fresh process; TLC requires every transcript to be byte-identical (fingerprints over class, output, error text, checksum) to the item's golden run. Per format, equal raw records must have equal checksums and pairs differing in exactly one ingested value distinct ones; three XML value classes the canonical JSON drops by design are listed as known findings.",
    note="Trusted: TLC. Histories are sampled. `now` and randomness are excluded by construction of the corpus."),
+ "C18": dict(cat="exploration", design="5/C18",
+   technique="TLA+ spec Encoding.tla (code-page tables as total functions, UTF-8 encoding, BOM-stripping reader over every chunking) checked by TLC; its tables are replayed on the real decoder (512 pairs) and used to build UTF-8 reference inputs; declared-encoding runs vs reference runs validated by TLC (Trace_Runs.tla)",
+   text="TLC checks the BOM machine for every chunking of small inputs and the table axioms; the tables TLC emits are (i) compared with the real WrapEncoding decoder on all 512 (byte, encoding) pairs and (ii) used to convert inputs whose payloads cover all 256 byte values to UTF-8; for all 7 formats the run with the encoding declared must equal the run on the converted bytes with utf-8 declared, and a UTF-8 BOM must be invisible (also under 1-byte delivery). Exhaustive over single byte values, sampled over byte strings.",
+   note="Trusted: TLC; x/text's decoder is bound to the table, not modelled. XML/JSON inputs are decoded by omniparser first and then by the format decoders, both sides of the comparison alike."),
 }
 
 def main():
